@@ -103,7 +103,11 @@ func runC15(c *Ctx) {
 		for i := 1; i < len(succ); i++ {
 			if succ[i].val != succ[0].val {
 				key := "c15:" + succ[0].name + " vs " + succ[i].name
-				if retypedLiteralInMixedArgument(cs.Src, cs.Env) {
+				if arithWithInterfaceOperand(cs.Src, cs.Env) {
+					// listed cause: checker.combined(interface{}, K) = K (typeWeight(interface{}) = 0), pinned by the
+					// repository's own tests; the static type then drives type-directed rewrites/instructions
+					key = "c15:arith-interface-operand-typed-as-other-operand"
+				} else if retypedLiteralInMixedArgument(cs.Src, cs.Env) {
 					// the one listed cause: checker.setTypeForIntegers retypes integer literals nested in an
 					// arithmetic call argument whose other operands are not literals (int division becomes float division)
 					key = "c15:retyped-literal-in-mixed-argument"
@@ -180,6 +184,42 @@ func retypedLiteralInMixedArgument(src string, e *Env) bool {
 		for _, a := range args {
 			if _, ok := a.(*ast.BinaryNode); ok && hasRetyped(a) && hasNonLiteral(a) {
 				found = true
+			}
+		}
+	}))
+	return found
+}
+
+// arithWithInterfaceOperand reports whether, after the real type check, some + - * / % node has one operand of
+// interface type and the other of a numeric type (so the checker gave the node the numeric operand's type).
+func arithWithInterfaceOperand(src string, e *Env) bool {
+	tree, err := parser.Parse(src)
+	if err != nil {
+		return false
+	}
+	if _, err := checker.Check(tree, conf.New(e)); err != nil {
+		return false
+	}
+	found := false
+	isIface := func(n ast.Node) bool { return n.Type() != nil && n.Type().Kind() == reflect.Interface }
+	isNum := func(n ast.Node) bool {
+		if n.Type() == nil {
+			return false
+		}
+		switch n.Type().Kind() {
+		case reflect.Int, reflect.Int8, reflect.Int16, reflect.Int32, reflect.Int64, reflect.Uint, reflect.Uint8,
+			reflect.Uint16, reflect.Uint32, reflect.Uint64, reflect.Float32, reflect.Float64:
+			return true
+		}
+		return false
+	}
+	ast.Walk(&tree.Node, visitFn(func(n ast.Node) {
+		if b, ok := n.(*ast.BinaryNode); ok {
+			switch b.Operator {
+			case "+", "-", "*", "/", "%":
+				if (isIface(b.Left) && isNum(b.Right)) || (isNum(b.Left) && isIface(b.Right)) {
+					found = true
+				}
 			}
 		}
 	}))
